@@ -252,7 +252,8 @@ def check_kernel(ctx, src, S, statics, label, cases, other=None):
             ctx.hist("attribution", "zone itself")
             g = zone_grid(S, a.spec_id)
             for v in vals:
-                if g is None or not (v == g):
+                # "exactly that zone's grid": the same sites in the same order (decided on the coordinates, not by the grids' own ==)
+                if g is None or tuple(v.shape) != tuple(g.shape) or list(v.positions) != list(g.positions):
                     ctx.fail({"kind": "not-the-zone", "zone": a.spec_id}, rep, f"value attributed to zone {a.spec_id} is not that zone's grid at run time")
         elif rz is not None:
             ctx.hist("attribution", "view of a zone")
@@ -345,6 +346,24 @@ def run(ctx):
                 for dec, tag in (("", "unfolded"), ("(arch_spec=S)", "folded")):
                     check_kernel(ctx, src.replace("{DEC}", dec), S, zones, f"{label}/{tag}", cases)
                 nfixed += 1
+    # the layout whose zone is a FILLED grid: the plain grid under it, a grid built from the same coordinates, the zone with its vacant
+    # traps filled again, and a masked copy of a plain zone are four grids that are NOT the zone (and whose views may show its vacant traps)
+    S5, z5 = FIX["filled"]
+    FILLED_KERNELS = [
+        ('    z1 = spec.get_static_trap(zone_id="mem")\n    p2 = filled.get_parent(z1)\n    v3 = grid.sub_grid(p2, [1], [0])\n    w4 = p2[0:2, 0:2]\n'),
+        ('    z1 = spec.get_static_trap(zone_id="mem")\n    p2 = grid.from_positions([0.0, 2.0, 4.5], [0.0, 3.0, 7.0])\n    v3 = grid.sub_grid(p2, [1, 2], [0, 2])\n    w4 = p2[0:2, 0:2]\n'),
+        ('    z1 = spec.get_static_trap(zone_id="mem")\n    p2 = filled.fill(z1, [(1, 0), (0, 1), (2, 2)])\n    v3 = grid.sub_grid(p2, [1], [0])\n    w4 = p2[0:2, 0:2]\n'),
+        ('    z1 = spec.get_static_trap(zone_id="mem")\n    p2 = filled.fill(z1[0:2, 0:2], [(1, 0)])\n    v3 = grid.sub_grid(p2, [1], [0])\n    w4 = filled.fill(z1, [(0, 0)])\n'),
+        ('    z1 = spec.get_static_trap(zone_id="aux")\n    p2 = filled.vacate(z1, [(0, 0), (1, 2)])\n    v3 = grid.sub_grid(p2, [0, 1], [0])\n    w4 = filled.get_parent(p2)\n'),
+        ('    z1 = spec.get_static_trap(zone_id="mem")\n    p2 = filled.vacate(z1, [(1, 1)])\n    v3 = filled.get_parent(p2)\n    w4 = filled.shift(z1, 0.0, 0.0)\n'),
+    ]
+    for body in FILLED_KERNELS:
+        for param in (False, True):
+            # the site lists as literals, and handed in at run time (nothing to fold)
+            src = ("@move{DEC}\ndef main(c: bool):\n" + body + "    gate.local_rz(0.5, z1)\n    gate.local_rz(0.5, p2)\n    gate.local_rz(0.5, v3)\n    gate.local_rz(0.5, w4)\n")
+            for dec, tag in (("", "unfolded"), ("(arch_spec=S)", "folded"), ("(fold=False)", "unfolded")):
+                check_kernel(ctx, src.replace("{DEC}", dec), S5, z5, f"filled/{tag}", cases)
+            nfixed += 1
     ctx.count("fixed kernels: every zone under every axis-preserving transform (unfolded and folded)", nfixed)
     chunks = [cases[i:i + 60] for i in range(0, len(cases), 60)]
     bodies = []
